@@ -296,7 +296,7 @@ func runInflightExplicitConnection(res *lp.Result) {
 		}
 		answer()
 		var got *frame.Frame
-		if !within(3*time.Second, func() { got, _ = cc.Receive(r1) }) || got == nil {
+		if !within(9*time.Second, func() { got, _ = cc.Receive(r1) }) || got == nil {
 			res.Add(lp.Finding{Kind: "violation", What: "the response to a request sent with a caller-chosen id does not reach it", Input: what})
 			continue
 		}
@@ -355,7 +355,7 @@ func runRoutingConnection(res *lp.Result) {
 		for k, r := range reqs {
 			var f *frame.Frame
 			var err error
-			if !within(4*time.Second, func() { f, err = cc.Receive(r) }) || err != nil || f == nil {
+			if !within(9*time.Second, func() { f, err = cc.Receive(r) }) || err != nil || f == nil {
 				viol("a response for an unknown stream id (or an event) disturbs the delivery to other requests", fmt.Sprintf("request %d: %v", k, err))
 				continue
 			}
@@ -374,7 +374,7 @@ func runRoutingConnection(res *lp.Result) {
 			}
 		}
 		var ev *frame.Frame
-		if !within(3*time.Second, func() { ev, err = cc.ReceiveEvent() }) || err != nil || ev == nil {
+		if !within(9*time.Second, func() { ev, err = cc.ReceiveEvent() }) || err != nil || ev == nil {
 			viol("server-pushed event does not reach the event channel", fmt.Sprint(err))
 		} else if _, ok := ev.Body.Message.(*message.StatusChangeEvent); !ok {
 			viol("event channel delivers something that is not the event", fmt.Sprint(ev.Body.Message))
@@ -425,7 +425,7 @@ func runRoutingEventFlood(res *lp.Result) {
 			}
 			sc.Send(frame.NewFrame(v, req.Header.StreamId, &message.SetKeyspaceResult{Keyspace: "answer"}))
 			var f *frame.Frame
-			if !within(4*time.Second, func() { f, err = cc.Receive(r) }) || err != nil || f == nil {
+			if !within(9*time.Second, func() { f, err = cc.Receive(r) }) || err != nil || f == nil {
 				res.Add(lp.Finding{Kind: "violation", What: "a response is not delivered to its request while unconsumed events fill the event queue", Input: id, Impl: fmt.Sprint(err)})
 				return
 			}
